@@ -202,6 +202,26 @@ def build() -> Check:
     ck.ob("R2.callback-serdes-flow", "context.py:DurableContext.create_callback",
           vals and all(v in ("config.serdes", "None") for v in vals) and "config.serdes" in vals,
           f"Callback.serdes is bound to {sorted(vals)}")
+
+    # R5: the batch a map/parallel delivers is classified with the caller's completion policy on the first run and when it is rebuilt
+    # on replay (BatchResult.from_items falls back to fail-fast when no policy is passed: a silent, different completion_reason)
+    import ast as _ast
+    cex = prog.cls("concurrency.executor", "ConcurrentExecutor")
+    sites = []
+    for mname, m in cex.methods.items():
+        for n in _ast.walk(m.node):
+            if isinstance(n, _ast.Call) and isinstance(n.func, _ast.Attribute) and n.func.attr in ("from_items", "from_dict") \
+                    and isinstance(n.func.value, _ast.Name) and n.func.value.id == "BatchResult":
+                cfg = n.args[1] if len(n.args) > 1 else next((k.value for k in n.keywords if k.arg == "completion_config"), None)
+                if isinstance(cfg, _ast.Name):  # a local alias of the policy
+                    defs = [a.value for a in _ast.walk(m.node) if isinstance(a, _ast.Assign) and any(isinstance(x, _ast.Name) and x.id == cfg.id for x in a.targets)]
+                    if len(defs) == 1:
+                        cfg = defs[0]
+                sites.append((mname, n.lineno, _ast.unparse(cfg) if cfg is not None else None))
+    ck.floor("batch_result_build_sites", len(sites), 2)
+    for mname, ln, cfg in sites:
+        ck.ob("R5.batch-classified-with-callers-policy", f"concurrency/executor.py:ConcurrentExecutor.{mname}", cfg == "self.completion_config",
+              f"BatchResult built with completion policy `{cfg}` (first run and replay must both use self.completion_config)", where=f"line {ln}")
     return ck
 
 
